@@ -20,6 +20,7 @@ import (
 	"os"
 	"runtime"
 	"runtime/debug"
+	"strings"
 	"testing"
 	"time"
 )
@@ -34,22 +35,34 @@ func verifStressLoop(fn func()) {
 	for time.Now().Before(deadline) && iters < 20000 {
 		iters++
 		verifPos = 0
-		out := func() (out string) {
+		ch := make(chan string, 1)
+		go func() {
 			defer func() {
 				if r := recover(); r != nil {
 					switch v := r.(type) {
 					case verifViolation:
-						out = "VIOLATION-REPRODUCED: " + v.msg
+						ch <- "VIOLATION-REPRODUCED: " + v.msg
 					case verifDiverged:
-						out = "REPLAY-DIVERGED: " + v.msg
+						ch <- "REPLAY-DIVERGED: " + v.msg
 					default:
-						out = fmt.Sprintf("VIOLATION-REPRODUCED: PANIC: %v", r)
+						ch <- fmt.Sprintf("VIOLATION-REPRODUCED: PANIC: %v", r)
 					}
+					return
 				}
+				ch <- ""
 			}()
 			fn()
-			return ""
 		}()
+		var out string
+		select {
+		case out = <-ch:
+		case <-time.After(8 * time.Second):
+			out = "VIOLATION-REPRODUCED: HANG: an iteration of the stress loop did not finish within 8 s"
+		}
+		if strings.Contains(out, "HANG") {
+			fmt.Println("VERIF-REPLAY-RESULT: " + out + fmt.Sprintf(" (iteration %d)", iters))
+			return
+		}
 		verifCleanup()
 		if out != "" {
 			res = out + fmt.Sprintf(" (iteration %d of the stress loop)", iters)
